@@ -166,3 +166,16 @@ package dns
 //@   ensures rootorig: !IsFqdnSpec(s) && len(s) > 0 && !(len(s) == 1 && s[0] == '@') && isdot(origin) ==> len(ret0) == len(s) + 1 && ret0[len(s)] == '.' && (forall k in 0..len(s) :: ret0[k] == s[k])
 //@   ensures join:   !IsFqdnSpec(s) && len(s) > 0 && !(len(s) == 1 && s[0] == '@') && len(origin) > 0 && !isdot(origin) ==> len(ret0) == len(s) + 1 + len(origin) && ret0[len(s)] == '.' && (forall k in 0..len(s) :: ret0[k] == s[k]) && (forall k in 0..len(origin) :: ret0[len(s) + 1 + k] == origin[k])
 //@   pure
+
+// TrimDomainName: "" is the apex; a name that is not under the origin comes back unchanged; otherwise the origin's
+// labels are cut off at the start of the first shared label (less the separating dot), "@" when nothing is left
+//@ func dnsutil.TrimDomainName [C19]
+//@   opt no-safety
+//@   ensures empty: len(s) == 0 ==> len(ret0) == 1 && ret0[0] == '@'
+//@   callsite "IsSubDomain" order: arg0 == origin && arg1 == s
+//@   callsite "CompareDomainName" both: arg0 == s && arg1 == origin
+//@   callsite "Split" which: arg0 == s || arg0 == origin
+//@   assert at "return original" notsub: !callres("IsSubDomain")
+//@   assert at "// origin == s" same: len(olabels) == m && len(olabels) == len(slabels)
+//@   assert at "return s[:slabels[len(slabels)-m]-1]" cut: callres("IsSubDomain") && m == callres("CompareDomainName")
+//@   exit prefix: callres("IsSubDomain") && !(len(ret0) == 1 && ret0[0] == '@') ==> sliceoff(ret0) == sliceoff(s) && len(ret0) == slabels[len(slabels) - m] - 1
